@@ -9,6 +9,7 @@ from . import observe as O
 from . import ebnf as E
 
 TRACE_CFG = 'SPECIFICATION Spec\nINVARIANT VerdictOk\nCHECK_DEADLOCK FALSE\n'
+CAP_PER_PARSE = 250
 
 
 def val5(v):
@@ -51,10 +52,15 @@ def instrument(parser, log, log_reset):
     num = {}            # id(object) -> number of the reduction result it is (renumbered: TLC integers are 32 bit)
     counter = [0]
     alive = []          # the results stay referenced for the duration of a parse: an id is never reused while it is in num
-    log_reset.append(lambda: (num.clear(), alive.clear()))
+    left = [CAP_PER_PARSE]      # reductions still recorded in this parse (a hugely ambiguous parse is cut off: the snapshots are deep)
+    log_reset.append(lambda: (num.clear(), alive.clear(), left.__setitem__(0, CAP_PER_PARSE)))
 
     def wrap(rule, f):
         def g(children):
+            if left[0] <= 0:
+                left[0] = -1                  # marks the parse as cut off
+                return f(children)
+            left[0] -= 1
             kids = [val5(c) for c in children]
             kid = [num.get(id(c), 0) if (hasattr(c, 'data') or hasattr(c, 'type')) else 0 for c in children]
             res = f(children)
@@ -115,6 +121,10 @@ def observe_case(spec):
         try:
             with O.budget(20):
                 p.parse(text)
+            if len(log) - n0 >= CAP_PER_PARSE:
+                del log[n0:]                  # cut off: not judged (a later reduction could refer to an unrecorded one)
+                case['cut_off'] = case.get('cut_off', 0) + 1
+                continue
             case['texts'].append([text, n0, len(log)])
         except UnexpectedInput:
             del log[n0:]
